@@ -153,6 +153,7 @@ def _run(ctx):
     # texture spellings: soil files with one id per spelling; every case through the real Input/Hydro in-process
     B.make_variant_inputs(ex)
     B.make_gap_weather(ex)
+    B.make_fraction_inputs(ex)
     B.make_long_irrigation(ex)
     # lines sharing input files and ids, differing in one interpretation key ("same results alone or together")
     _cache["ik"] = B.run_interp_groups(binary, ex, rng, concs=(1, 2, 8) if ctx.thorough else (1, 2), timeout=TIMEOUT)
@@ -165,15 +166,15 @@ def _run(ctx):
     tobs = _texture_harness(vh, ex, bf, len(tcases))
     _cache.update(tcases=tcases, tobs=tobs)
     pool = dict(B.VALID); pool.update(B.FAILING); pool.update(B.TEXTURE_FAILING); pool.update(B.TEXTURE_VALID); pool.update(B.VARIANTS)
-    pool.update(B.GAPS); pool.update(B.LONG_IRRIGATION)
+    pool.update(B.GAPS); pool.update(B.LONG_IRRIGATION); pool.update(B.FRACTIONS); pool.update(B.FRACTIONS_VALID)
     # every listed class under the other configurations (ex3, rue, zuc, bulk, MUN) + weather gaps on the boundaries of years / of the file
-    variants = list(B.VARIANTS) + list(B.GAPS)
+    variants = list(B.VARIANTS) + list(B.GAPS) + list(B.FRACTIONS)   # + fraction / texture errors by position in the profile, PTF 0..4
     longk = list(B.LONG_IRRIGATION)      # valid line that outgrows the irrigation slices (> 1200 events)
     vkeys = list(B.VALID); rng.shuffle(vkeys)
     valid = vkeys[:(8 if ctx.thorough else 4)]
     if "pred" not in valid:
         valid[-1] = "pred"
-    valid += list(B.TEXTURE_VALID)
+    valid += list(B.TEXTURE_VALID) + list(B.FRACTIONS_VALID)
     classes = list(B.FAILING) + list(B.TEXTURE_FAILING)
     solo = {}
     jobs = [lambda k=k: (k, B.run_batch(binary, ex, "solo_" + re.sub(r"\W", "_", k), [k], pool, 1, 4, timeout=TIMEOUT))
